@@ -769,6 +769,19 @@ func runR(id string, cs Case) string {
 	l.facts(f)
 	l.prog(cs.Q.Prog, size)
 	l.Strs(patterns(cs.C))
+	// the request method and the registered routes: the driver recomputes the main-tree lookup with the routing model
+	// (Model/Radix.getRoute) and compares it with the predicted fact `tree.getRoute`
+	l.Str(cs.Q.Method)
+	var act []routeDef
+	for _, d := range table {
+		if active(d, cs.C) {
+			act = append(act, d)
+		}
+	}
+	l.Nat(len(act))
+	for _, d := range act {
+		l.Str(d.method).Str(d.ver).Str(d.pattern).Str(d.intParam)
+	}
 	l.Sep()
 	if panicked {
 		l.Tok("P")
